@@ -130,7 +130,7 @@ theorem solo_inc (cfg : Cfg) (now tid : Nat) (r : Rid) (q : QId) (h : Hdrs) (hq 
       simp only [solo, soloStep, stepThread]
       unfold incOutcome
       rw [incChain_cons]
-      cases hres : (incLevel c.max c.win (st.at (a, groupOf c h)) r now).2 with
+      cases hres : (incLevel c.max c.win (st.at (a, groupOf c h)) r now (costOf c h)).2 with
       | increased =>
         simp only [if_true]
         cases rest with
@@ -143,7 +143,7 @@ theorem solo_inc (cfg : Cfg) (now tid : Nat) (r : Rid) (q : QId) (h : Hdrs) (hq 
           simp only [incNext]
           rw [ih ((a, c) :: charged) _ n (by simp) (by simp only [List.length_cons] at hn ⊢; omega)]
           unfold incOutcome
-          by_cases hin : (incChain (KMap.set st (a, groupOf c h) (incLevel c.max c.win (st.at (a, groupOf c h)) r now).1)
+          by_cases hin : (incChain (KMap.set st (a, groupOf c h) (incLevel c.max c.win (st.at (a, groupOf c h)) r now (costOf c h)).1)
               (x :: xs) r now h).2 = IncRes.blocked
           · simp only [hin, if_true, refundAll]
           · have : ¬ (IncRes.increased = IncRes.blocked) := by simp
